@@ -14,7 +14,8 @@ def confirm(ID, v):
     r=int(rd); sfx='' if r==1 else str(r)
     src=f'/tmp/seed_out{sfx}/{ID}/{v}'
     wt=f'/tmp/seed{sfx}_{ID}'
-    name=chr(ord('a')+2*(r-1)+(0 if v=='a' else 1))
+    k=2*(r-1)+(0 if v=='a' else 1)
+    name=chr(ord('a')+k) if k<26 else 'b'+chr(ord('a')+k-26)
     out={}
     assert sh(f'git -C {wt} status --porcelain').stdout.strip()=='' , 'worktree dirty'
     rel=demo_path(f'{src}/demo.rs'); assert rel, 'no place-at comment'
